@@ -16,14 +16,15 @@ package writer
 import (
 	"strconv"
 
-	sutils "github.com/siglens/siglens/pkg/segment/utils"
 	"github.com/siglens/siglens/pkg/segment/structs"
+	sutils "github.com/siglens/siglens/pkg/segment/utils"
 	"github.com/siglens/siglens/pkg/utils"
 	zz "github.com/siglens/siglens/pkg/zzverif"
 )
 
-func verifC01nNoIntRange(key string, incomingVal int64, rangeIndexPtr map[string]*structs.Numbers)     {}
-func verifC01nNoFloatRange(key string, incomingVal float64, rangeIndexPtr map[string]*structs.Numbers) {}
+func verifC01nNoIntRange(key string, incomingVal int64, rangeIndexPtr map[string]*structs.Numbers) {}
+func verifC01nNoFloatRange(key string, incomingVal float64, rangeIndexPtr map[string]*structs.Numbers) {
+}
 
 func VerifC01MixedColumnToNumbers() {
 	texts := []string{"7", "-12", "1.5", "007", "+5", "1e3", "1.50", "NaN", "inf", "0x10"}
